@@ -74,7 +74,42 @@ def _eq(a, b) -> Optional[bool]:
     return None
 
 
+def _order_truth(rel: str, op) -> Optional[bool]:
+    """Truth of `count <op> bound` when count <rel> bound, rel in {'<', '=', '>'}."""
+    table = {ast.Lt: {'<': True, '=': False, '>': False}, ast.LtE: {'<': True, '=': True, '>': False},
+             ast.Gt: {'<': False, '=': False, '>': True}, ast.GtE: {'<': False, '=': True, '>': True},
+             ast.Eq: {'<': False, '=': True, '>': False}, ast.NotEq: {'<': True, '=': False, '>': True}}
+    t = table.get(type(op))
+    return None if t is None else t[rel]
+
+
+_FLIP = {'<': '>', '>': '<', '=': '='}
+
+
+def _text_of(e, env) -> str:
+    if isinstance(e, ast.Name) and e.id in env and isinstance(env[e.id], tuple) and env[e.id][0] == 'opaque':
+        return env[e.id][1]
+    return unparse(e)
+
+
 def eval_expr(e, env) -> tuple:
+    assume = env.get('__assume__') or {}
+    txt = None
+    if assume or env.get('__order__'):
+        txt = unparse(e)
+        if txt in assume:
+            return ('const', assume[txt])
+    if isinstance(e, ast.Compare) and len(e.ops) == 1 and env.get('__order__'):
+        lt, rt = _text_of(e.left, env), _text_of(e.comparators[0], env)
+        order = env['__order__']
+        if (lt, rt) in order:
+            r = _order_truth(order[(lt, rt)], e.ops[0])
+            if r is not None:
+                return ('const', r)
+        if (rt, lt) in order:
+            r = _order_truth(_FLIP[order[(rt, lt)]], e.ops[0])
+            if r is not None:
+                return ('const', r)
     if isinstance(e, ast.Constant):
         return ('const', e.value)
     if isinstance(e, ast.Name):
@@ -138,6 +173,8 @@ def eval_expr(e, env) -> tuple:
         raise NotUnderstood(f"int() of {v}")
     if isinstance(e, ast.Starred):
         raise NotUnderstood("starred")
+    if isinstance(e, (ast.Call, ast.Attribute, ast.Subscript)) and env.get('__opaque_ok__'):
+        return ('opaque', unparse(e))
     raise NotUnderstood(f"expression {unparse(e)}")
 
 
@@ -145,6 +182,11 @@ def exec_block(stmts, env):
     for s in stmts:
         if isinstance(s, ast.Return):
             raise _Return(eval_expr(s.value, env) if s.value is not None else ('const', None))
+        elif isinstance(s, ast.Raise):
+            name = unparse(s.exc.func if isinstance(s.exc, ast.Call) else s.exc) if s.exc is not None else 're-raise'
+            raise _Return(('raise', name))
+        elif isinstance(s, ast.Assign) and len(s.targets) == 1 and isinstance(s.targets[0], ast.Attribute) and '__effects__' in env:
+            env['__effects__'].append((unparse(s.targets[0]), eval_expr(s.value, env)))
         elif isinstance(s, ast.Assign) and len(s.targets) == 1 and isinstance(s.targets[0], ast.Name):
             env[s.targets[0].id] = eval_expr(s.value, env)
         elif isinstance(s, ast.If):
@@ -154,6 +196,8 @@ def exec_block(stmts, env):
             exec_block(s.body if t else s.orelse, env)
         elif isinstance(s, ast.Pass) or (isinstance(s, ast.Expr) and isinstance(s.value, ast.Constant)):
             continue
+        elif isinstance(s, ast.Expr) and isinstance(s.value, ast.Call) and '__effects__' in env:
+            env['__effects__'].append(('call', ('const', unparse(s.value.func))))
         else:
             raise NotUnderstood(f"statement {unparse(s)[:60]}")
 
@@ -185,7 +229,29 @@ def tabulate_expr(expr, classes: Dict[str, List[InputClass]]) -> Dict[tuple, tup
     return table
 
 
+def run_block(stmts, order=None, assume=None, env=None):
+    """Abstractly run a block under an ordering assumption {(count_text, bound_text): '<'|'='|'>'} and truth assumptions
+    {expr_text: bool}.  -> (result, effects) where result is the abstract return value, ('raise', name) or ('fall',)."""
+    e = dict(env or {})
+    e['__order__'] = order or {}
+    e['__assume__'] = assume or {}
+    e['__effects__'] = []
+    e['__opaque_ok__'] = True
+    try:
+        exec_block(stmts, e)
+        result = ('fall',)
+    except _Return as r:
+        result = r.v
+    return result, e['__effects__'], e
+
+
 def show(v) -> str:
+    if v[0] == 'raise':
+        return f"raise {v[1]}"
+    if v[0] == 'opaque':
+        return v[1]
+    if v[0] == 'fall':
+        return 'falls through'
     if v[0] == 'const':
         return repr(v[1])
     if v[0] == 'sym':
